@@ -54,7 +54,7 @@ def _cases(tier, seed):
     cs.append({'scen': 'tt_pad', 's': {'N': [2, 3], 'R': [1, 2, 1], 'pad': [[1, 0], [0, 2]], 'value': 0.0, 'dtype': 'complex128'}})
     cs.append({'scen': 'tt_pad', 's': {'N': [2, 3], 'R': [1, 2, 1], 'pad': [[1, 0], [0, 2]], 'value': 0.0, 'dtype': 'float32'}})
     # ---- pad (operators)
-    for M, N, R in [([2], [3], [1, 1]), ([2, 1], [1, 2], [1, 2, 1]), ([2, 2], [2, 2], [1, 1, 1])] + ([([1, 2, 1], [2, 1, 2], [1, 2, 2, 1])] if th else []):
+    for M, N, R in [([2], [3], [1, 1]), ([2, 1], [1, 2], [1, 2, 1]), ([2, 2], [2, 2], [1, 1, 1]), ([1, 2, 1], [2, 1, 2], [1, 2, 1, 1]), ([2, 1, 1], [1, 1, 2], [1, 1, 2, 1])] + ([([1, 2, 1], [2, 1, 2], [1, 2, 2, 1])] if th else []):
         d = len(N)
         for k in range(0, d + 1):
             for pad in {tuple((1, 2) for _ in range(k)), tuple((0, 1) for _ in range(k)), tuple((2, 0) for _ in range(k)), tuple((0, 0) for _ in range(k)),
@@ -77,6 +77,12 @@ def _cases(tier, seed):
                 cs.append({'scen': 'tt_mprod', 's': {'N': N, 'R': R, 'modes': list(modes), 'L': [(N[m] + i) % 3 + 1 for i, m in enumerate(modes)], 'dtype': 'float64'}})
         if d >= 2:
             cs.append({'scen': 'tt_mprod', 's': {'N': N, 'R': R, 'modes': [d - 1, 0], 'L': [2, 3], 'dtype': 'float64'}})
+            cs.append({'scen': 'tt_mprod', 's': {'N': N, 'R': R, 'modes': [0, -1], 'L': [N[0], N[-1]], 'dtype': 'float64'}})
+            cs.append({'scen': 'tt_mprod', 's': {'N': N, 'R': R, 'modes': [-d, -1], 'L': [3, 2], 'dtype': 'float64'}})
+        cs.append({'scen': 'tt_mprod', 's': {'N': N, 'R': R, 'modes': [-1], 'L': [2], 'dtype': 'float64'}})
+        cs.append({'scen': 'tt_mprod', 's': {'N': N, 'R': R, 'modes': [-1], 'L': [N[-1]], 'single': True, 'dtype': 'float64'}})
+        cs.append({'scen': 'tt_mprod', 's': {'N': N, 'R': R, 'modes': [0, 0], 'L': [2, 3], 'dtype': 'float64'}})
+        cs.append({'scen': 'tt_mprod', 's': {'N': N, 'R': R, 'modes': [d - 1, -1], 'L': [N[-1], N[-1]], 'dtype': 'float64'}})
     cs.append({'scen': 'tt_mprod', 's': {'N': [2, 3], 'R': [1, 2, 1], 'modes': [1], 'L': [2], 'single': True, 'dtype': 'complex128'}})
     # ---- to_ttm, conj, clone
     for N, R in [([3], [1, 1]), ([2, 3], [1, 2, 1]), ([2, 1, 3], [1, 2, 3, 1])]:
